@@ -45,9 +45,10 @@ func TestVerif_C13_ZA(t *testing.T) {
 		d, _, _ := sm2gen.PrivKey(t, "d")
 		px, py, _ := sm2gen.Pub(d)
 		in := snap(id, px, py)
+		placed, recordChanged := recordLayout(t, "rec", id, px, py)
 		var za []byte
 		var err error
-		if p := vt.Catch(func() { za, err = sm2.ZA(id, px, py) }); p != nil {
+		if p := vt.Catch(func() { za, err = sm2.ZA(placed[0], placed[1], placed[2]) }); p != nil {
 			vt.Fail(t, rec, "C13:za:panic", "ZA panicked: %v (id length %d)", p, n)
 			return
 		}
@@ -59,6 +60,10 @@ func TestVerif_C13_ZA(t *testing.T) {
 		}
 		if !sameAll(in, id, px, py) {
 			vt.Fail(t, rec, "C13:za:modifies-input", "ZA modified an argument")
+		}
+		if ch := recordChanged(); ch != "" {
+			vt.Fail(t, rec, "C13:za:writes-behind-input", "ZA wrote into the caller's buffer behind one of its inputs (arguments laid out as sub-slices of one record): %s", ch)
+			return
 		}
 		if !ok {
 			if err == nil || za != nil {
@@ -78,7 +83,7 @@ func TestVerif_C13_ZA(t *testing.T) {
 
 func TestVerif_C13_Wrappers(t *testing.T) {
 	rec := stats.Get("C13", "wrappers")
-	rec.Rule("rapid: key, id (lengths as above, < 8192 mostly), message of 0..200 bytes (all residues mod 64), a deterministic nonce stream. Oracle: Sign(id,..,msg) and SignZa(za,msg) return exactly SignHashed(identical stream, d, e) for e = sm3ref(ZA||msg) computed by the reference; Verify/VerifyZa return what VerifyHashed returns on e (for the true signature and for one with a changed id / message); Sign/Verify with an over-long id return an error. Non-trivial: (32+len(msg)) mod 64 in 55..64 or 0, or id length >= 8190, or a mutated id/message; distinct by (id,msg,key,stream).")
+	rec.Rule("rapid: key, id (lengths as above, < 8192 mostly), message of 0..200 bytes (all residues mod 64), a deterministic nonce stream. The arguments of Sign / Verify / ZA are passed as sub-slices of ONE record buffer in a drawn order (capacity extending over the following fields, as when a wire record is parsed in place). Oracle: the record is byte-identical afterwards; Sign(id,..,msg) and SignZa(za,msg) return exactly SignHashed(identical stream, d, e) for e = sm3ref(ZA||msg) computed by the reference; Verify/VerifyZa return what VerifyHashed returns on e (for the true signature and for one with a changed id / message); Sign/Verify with an over-long id return an error. Non-trivial: (32+len(msg)) mod 64 in 55..64 or 0, or id length >= 8190, or a mutated id/message; distinct by (id,msg,key,stream).")
 	t.Cleanup(stats.FlushAll)
 	rapid.Check(t, func(t *rapid.T) {
 		r := gen.Rand(t, "seed")
@@ -120,7 +125,12 @@ func TestVerif_C13_Wrappers(t *testing.T) {
 		if p := vt.Catch(func() {
 			r0, s0, e0 = sm2.SignHashed(newStream(stream), denc, e)
 			r1, s1, e1 = sm2.SignZa(newStream(stream), denc, za, msg)
-			r2, s2, e2 = sm2.Sign(id, px, py, newStream(stream), denc, msg)
+			// the id/message-level call gets its arguments as sub-slices of one in-place record
+			pl, changed := recordLayout(t, "signrec", id, px, py, denc, msg)
+			r2, s2, e2 = sm2.Sign(pl[0], pl[1], pl[2], newStream(stream), pl[3], pl[4])
+			if ch := changed(); ch != "" {
+				panic("Sign wrote into the caller's record: " + ch)
+			}
 		}); p != nil {
 			vt.Fail(t, rec, "C13:wrappers:panic", "signing panicked: %v", p)
 			return
@@ -162,7 +172,11 @@ func TestVerif_C13_Wrappers(t *testing.T) {
 		if p := vt.Catch(func() {
 			vh, _ = sm2.VerifyHashed(px, py, ev, r0, s0)
 			vz, _ = sm2.VerifyZa(px, py, za2, msg2, r0, s0)
-			vf, _ = sm2.Verify(id2, px, py, msg2, r0, s0)
+			pl, changed := recordLayout(t, "verifyrec", id2, px, py, msg2, r0, s0)
+			vf, _ = sm2.Verify(pl[0], pl[1], pl[2], pl[3], pl[4], pl[5])
+			if ch := changed(); ch != "" {
+				panic("Verify wrote into the caller's record: " + ch)
+			}
 		}); p != nil {
 			vt.Fail(t, rec, "C13:wrappers:panic", "verification panicked: %v", p)
 			return
